@@ -222,15 +222,16 @@ CLAIMED = {
         "design_ref": "DESIGN.md §6 C10",
     },
     "C15": {
-        "text": "Lean 4 theorems (Props/C15.lean): for every document, every sheet in it and any ODF encoding using at most column runs, the transcription of ods_rows "
-                "returns exactly the rows and cell texts of that sheet (C15_decode_encode_partial, via run-length lemma C15_runs_lossless); a missing sheet, an "
-                "unreadable container and a bad repeat count give a data-format error; four proved counterexamples show that row runs, white-space elements, spans "
-                "and several paragraphs are not decoded (open findings). Correspondence: an independent ODF encoder (all 32 feature subsets, UTF-8 / UTF-16+BOM / "
+        "text": "Lean 4 theorems (Props/C15.lean): for every document, every sheet in it and every ODF encoding that does not use row runs - column runs, blanks / tabs / "
+                "line breaks as text:s / text:tab / text:line-break, text:span mark-up, several paragraphs per cell, in any combination - the transcription of ods_rows "
+                "returns exactly the rows and cell texts of that sheet (C15_decode_encode, via the run-length lemma C15_runs_lossless and the cell text lemmas of "
+                "Proofs/OdsLemmas.lean: white-space mark-up, split/join of lines); a missing sheet, an unreadable container and a bad repeat count give a "
+                "data-format error; one proved counterexample: row runs are not expanded (open finding; the three text findings were repaired by dd17652). Correspondence: an independent ODF encoder (all 32 feature subsets, UTF-8 / UTF-16+BOM / "
                 "ISO-8859-1 with character references, 1-3 sheets) writes real .ods files read by the real code; the encoder's tree is compared with Lean's encodeDoc; "
                 "archives truncated at every 64th byte, content.xml cut at tag boundaries, non-zip input, bad repeat counts.",
         "note": "Trusted: Lean kernel; zipfile/ElementTree (byte-level parsing is a parameter of the model); the independent encoder. Partial: the full statement is false "
                 "of the current code for four of the five optional features (known findings), the proved theorem covers the fifth and the plain encoding.",
-        "technique": "Lean 4 proof (decode o encode = id over an abstract XML tree, partial) + generated-file correspondence + fault enumeration",
+        "technique": "Lean 4 proof (decode o encode = id over an abstract XML tree, all features but row runs) + generated-file correspondence + fault enumeration",
         "design_ref": "DESIGN.md §6 C15",
     },
     "C16": {
